@@ -230,11 +230,679 @@ fn cmd_rolling(args: &[String]) {
         "replicated_runs": replicated_runs, "long_runs": nlong, "plain_fast_disagreements": sink.disagreements}));
 }
 
+
+// ---------------------------------------------------------------------------------------------
+// C01 / C16: delta engine on symbol-expanded cases
+// ---------------------------------------------------------------------------------------------
+mod deltae {
+    use super::*;
+    use copia::async_sync::AsyncCopiaSync;
+    use copia::{CopiaSync, Delta, DeltaOp, Signature, Sync};
+    use std::io::Cursor;
+
+    pub fn chunk(sym: &str, clen: usize, seed: u64) -> Vec<u8> {
+        let tag: u64 = sym.bytes().fold(1469598103934665603u64, |h, b| (h ^ b as u64).wrapping_mul(1099511628211));
+        let base_tag = if sym == "K2" { "K1".bytes().fold(1469598103934665603u64, |h, b| (h ^ b as u64).wrapping_mul(1099511628211)) } else { tag };
+        let mut rng = StdRng::seed_from_u64(seed ^ base_tag ^ ((clen as u64) << 32));
+        match sym {
+            "H" => {
+                let mut v = vec![0xffu8; clen];
+                let m = clen.min(16);
+                let at = (clen - m) / 2;
+                for i in 0..m { v[at + i] = rng.gen_range(0xf0..=0xff); }
+                // make sure the marker is not all-0xFF
+                v[at] = 0xf0 | (rng.gen::<u8>() & 0x0e);
+                v
+            }
+            "K1" | "K2" => {
+                let mut v: Vec<u8> = (0..clen).map(|_| rng.gen()).collect();
+                let at = clen / 2;
+                for i in 0..3 { v[at + i] = rng.gen_range(2..=253); }
+                if sym == "K2" { v[at] += 1; v[at + 1] -= 2; v[at + 2] += 1; }
+                v
+            }
+            _ => (0..clen).map(|_| rng.gen()).collect(),
+        }
+    }
+
+    pub fn expand(syms: &Value, clen: usize, seed: u64) -> Vec<u8> {
+        let mut out = Vec::new();
+        for s in syms.as_array().unwrap() { out.extend_from_slice(&chunk(s.as_str().unwrap(), clen, seed)); }
+        out
+    }
+
+    pub fn expected_ops(c: &Value, clen: usize, seed: u64) -> Vec<DeltaOp> {
+        c["ops"].as_array().unwrap().iter().map(|o| {
+            if o["t"] == "C" {
+                DeltaOp::Copy { offset: o["off"].as_u64().unwrap() * clen as u64, len: (o["len"].as_u64().unwrap() * clen as u64) as u32 }
+            } else {
+                DeltaOp::Literal(expand(&o["data"], clen, seed))
+            }
+        }).collect()
+    }
+
+    pub struct Outcome { pub viol: Vec<String>, pub nonconf: Vec<String> }
+
+    /// All library-level clauses of C01 / C16 on one concrete (basis, source, R).
+    pub fn check_lib(rt: &tokio::runtime::Runtime, basis: &[u8], source: &[u8], r: usize,
+                     expect: Option<&[DeltaOp]>, greedy_lit: Option<u64>) -> (Outcome, Option<Delta>) {
+        let mut o = Outcome { viol: vec![], nonconf: vec![] };
+        let res = catch_unwind(AssertUnwindSafe(|| {
+            let sync = CopiaSync::with_block_size(r);
+            let asy = AsyncCopiaSync::with_block_size(r);
+            let sig_s = sync.signature(Cursor::new(basis)).map_err(|e| format!("sync signature: {e}"))?;
+            let sig_a = rt.block_on(asy.signature(basis)).map_err(|e| format!("async signature: {e}"))?;
+            let mut v: Vec<String> = vec![];
+            if sig_s != sig_a { v.push("signature differs between sync and async engine".into()); }
+            let d_s = sync.delta(Cursor::new(source), &sig_s).map_err(|e| format!("sync delta: {e}"))?;
+            let d_a = rt.block_on(asy.delta(source, &sig_a)).map_err(|e| format!("async delta: {e}"))?;
+            if d_s != d_a { v.push("delta differs between sync and async engine".into()); }
+            for (name, d) in [("sync", &d_s), ("async", &d_a)] {
+                if d.source_size != source.len() as u64 { v.push(format!("{name}: source_size {} != {}", d.source_size, source.len())); }
+                if d.checksum.as_bytes() != blake3::hash(source).as_bytes() { v.push(format!("{name}: checksum is not the source's BLAKE3")); }
+                if d.basis_size != basis.len() as u64 { v.push(format!("{name}: basis_size {} != {}", d.basis_size, basis.len())); }
+                let (mut sum, mut lit) = (0u64, 0u64);
+                for op in &d.ops {
+                    match op {
+                        DeltaOp::Copy { offset, len } => {
+                            sum += u64::from(*len);
+                            if offset + u64::from(*len) > basis.len() as u64 { v.push(format!("{name}: copy {offset}+{len} outside the basis ({})", basis.len())); }
+                        }
+                        DeltaOp::Literal(x) => { sum += x.len() as u64; lit += x.len() as u64; }
+                    }
+                }
+                if sum != source.len() as u64 { v.push(format!("{name}: copy+literal lengths sum to {sum}, source is {}", source.len())); }
+                if let Some(g) = greedy_lit { if lit > g { v.push(format!("C16 {name}: {lit} literal bytes > textbook greedy {g}")); } }
+                // patch with both engines
+                let mut out = Vec::new();
+                match sync.patch(Cursor::new(basis), d, &mut out) {
+                    Ok(()) => if out != source { v.push(format!("{name} delta, sync patch: Ok but output != source")); },
+                    Err(e) => v.push(format!("{name} delta, sync patch failed: {e}")),
+                }
+                let mut out2 = Vec::new();
+                match rt.block_on(asy.patch(Cursor::new(basis.to_vec()), d, &mut out2)) {
+                    Ok(()) => if out2 != source { v.push(format!("{name} delta, async patch: Ok but output != source")); },
+                    Err(e) => v.push(format!("{name} delta, async patch failed: {e}")),
+                }
+            }
+            Ok::<_, String>((v, d_s))
+        }));
+        match res {
+            Ok(Ok((v, d))) => {
+                o.viol = v;
+                if let Some(e) = expect { if d.ops != e { o.nonconf.push(format!("ops differ from the spec's scan: got {} ops, want {}", d.ops.len(), e.len())); } }
+                (o, Some(d))
+            }
+            Ok(Err(e)) => { o.viol.push(e); (o, None) }
+            Err(p) => { o.viol.push(format!("panic: {}", p.downcast_ref::<String>().cloned().or(p.downcast_ref::<&str>().map(|s| s.to_string())).unwrap_or_default())); (o, None) }
+        }
+    }
+
+    fn run_ok(cmd: &mut std::process::Command) -> Result<(), String> {
+        let o = cmd.env("RUST_LOG", "off").output().map_err(|e| format!("spawn: {e}"))?;
+        if o.status.success() { Ok(()) } else { Err(format!("exit {:?}: {}", o.status, String::from_utf8_lossy(&o.stderr).chars().take(300).collect::<String>())) }
+    }
+
+    /// CLI file chain + single-file sync on one concrete case; returns violations.
+    pub fn check_cli(copia: &str, dir: &std::path::Path, basis: &[u8], source: &[u8], r: usize, lib_delta: Option<&Delta>) -> Vec<String> {
+        let mut v = vec![];
+        let p = |n: &str| dir.join(n);
+        std::fs::write(p("basis"), basis).unwrap();
+        std::fs::write(p("source"), source).unwrap();
+        let rs = r.to_string();
+        let chain = (|| -> Result<(), String> {
+            run_ok(std::process::Command::new(copia).args(["signature", p("basis").to_str().unwrap(), "-o", p("sig").to_str().unwrap(), "-b", &rs]))?;
+            run_ok(std::process::Command::new(copia).args(["delta", p("source").to_str().unwrap(), p("sig").to_str().unwrap(), "-o", p("delta").to_str().unwrap()]))?;
+            run_ok(std::process::Command::new(copia).args(["patch", p("basis").to_str().unwrap(), p("delta").to_str().unwrap(), "-o", p("out").to_str().unwrap()]))?;
+            Ok(())
+        })();
+        match chain {
+            Err(e) => v.push(format!("CLI chain failed: {e}")),
+            Ok(()) => {
+                if std::fs::read(p("out")).unwrap_or_default() != source { v.push("CLI chain: patched file != source".into()); }
+                if let Some(ld) = lib_delta {
+                    match bincode::deserialize::<Delta>(&std::fs::read(p("delta")).unwrap_or_default()) {
+                        Ok(cd) => if &cd != ld { v.push("CLI delta file differs from the library engines' delta".into()); },
+                        Err(e) => v.push(format!("CLI delta file does not deserialize: {e}")),
+                    }
+                    match bincode::deserialize::<Signature>(&std::fs::read(p("sig")).unwrap_or_default()) {
+                        Ok(cs) => {
+                            let ls = CopiaSync::with_block_size(r).signature(Cursor::new(basis)).unwrap();
+                            if cs != ls { v.push("CLI signature file differs from the library signature".into()); }
+                        }
+                        Err(e) => v.push(format!("CLI signature file does not deserialize: {e}")),
+                    }
+                }
+            }
+        }
+        // single-file sync: DST (= basis) becomes SRC
+        for (dst_init, label) in [(Some(basis), "existing dst"), (None, "absent dst")] {
+            let dst = p("dst");
+            let _ = std::fs::remove_file(&dst);
+            if let Some(b) = dst_init { std::fs::write(&dst, b).unwrap(); }
+            match run_ok(std::process::Command::new(copia).args(["sync", p("source").to_str().unwrap(), dst.to_str().unwrap(), "-b", &rs])) {
+                Err(e) => v.push(format!("copia sync ({label}) failed: {e}")),
+                Ok(()) => if std::fs::read(&dst).unwrap_or_default() != source { v.push(format!("copia sync ({label}): destination != source")); },
+            }
+            if std::fs::read(p("source")).unwrap_or_default() != source { v.push("copia sync modified the source".into()); }
+        }
+        v
+    }
+}
+
+/// args: cases.ndjson out.ndjson seed tier copia_bin workdir
+fn cmd_delta_cases(args: &[String]) {
+    let cases = read_ndjson(&args[0]);
+    let seed: u64 = args[2].parse().unwrap();
+    let thorough = args[3] == "thorough";
+    let copia = args[4].clone();
+    let workdir = args[5].clone();
+    let all_r: [usize; 8] = [512, 1024, 2048, 4096, 8192, 16384, 32768, 65536];
+    let main_r: Vec<usize> = if thorough { all_r.to_vec() } else { vec![512, 2048, 65536] };
+    let nthreads = 16usize;
+    let results: Vec<Vec<Value>> = std::thread::scope(|sc| {
+        let handles: Vec<_> = (0..nthreads).map(|t| {
+            let cases = &cases; let main_r = &main_r; let copia = &copia; let workdir = &workdir;
+            sc.spawn(move || {
+                let rt = tokio::runtime::Builder::new_current_thread().build().unwrap();
+                let mut out: Vec<Value> = vec![];
+                let (mut evals, mut nontrivial, mut cli) = (0u64, 0u64, 0u64);
+                let dir = std::path::Path::new(workdir).join(format!("t{t}"));
+                std::fs::create_dir_all(&dir).unwrap();
+                for (ci, c) in cases.iter().enumerate() {
+                    if ci % nthreads != t { continue; }
+                    let b = c["B"].as_u64().unwrap() as usize;
+                    let mut rs: Vec<usize> = main_r.clone();
+                    if !thorough && (ci / nthreads) % 20 == 0 { rs = all_r.to_vec(); }
+                    let has_c = c["ops"].as_array().unwrap().iter().any(|o| o["t"] == "C");
+                    let has_l = c["ops"].as_array().unwrap().iter().any(|o| o["t"] == "L");
+                    if has_c && has_l { nontrivial += 1; }
+                    for &r in &rs {
+                        let clen = r / b;
+                        let cs = seed.wrapping_add((ci as u64) % 5);   // a few chunk families
+                        let basis = deltae::expand(&c["basis"], clen, cs);
+                        let source = deltae::expand(&c["source"], clen, cs);
+                        let expect = deltae::expected_ops(c, clen, cs);
+                        let greedy = c["greedy"].as_u64().unwrap() * clen as u64;
+                        let (o, d) = deltae::check_lib(&rt, &basis, &source, r, Some(&expect), Some(greedy));
+                        evals += 1;
+                        for v in o.viol { out.push(json!({"kind":"violation","case":ci,"R":r,"what":v,"input":{"basis":c["basis"],"source":c["source"],"B":b,"chunk_seed":cs}})); }
+                        for v in o.nonconf { out.push(json!({"kind":"nonconf","case":ci,"R":r,"what":v})); }
+                        // CLI on a rotating subset
+                        let pick = if thorough { (ci + r) % 97 == 0 } else { (ci + r / 512) % 211 == 0 };
+                        if pick && r <= 8192 || (pick && has_c && has_l) {
+                            cli += 1;
+                            for v in deltae::check_cli(copia, &dir, &basis, &source, r, d.as_ref()) {
+                                out.push(json!({"kind":"violation","case":ci,"R":r,"what":v,"input":{"basis":c["basis"],"source":c["source"],"B":b,"chunk_seed":cs}}));
+                            }
+                        }
+                    }
+                }
+                let _ = std::fs::remove_dir_all(&dir);
+                out.push(json!({"kind":"summary","evaluations":evals,"nontrivial":nontrivial,"cli":cli}));
+                out
+            })
+        }).collect();
+        handles.into_iter().map(|h| h.join().unwrap()).collect()
+    });
+    let mut w = NdjsonWriter::create(&args[1]);
+    let (mut evals, mut nontrivial, mut cli) = (0u64, 0u64, 0u64);
+    for r in results { for v in r {
+        if v["kind"] == "summary" { evals += v["evaluations"].as_u64().unwrap(); nontrivial += v["nontrivial"].as_u64().unwrap(); cli += v["cli"].as_u64().unwrap(); }
+        else { w.write(&v); }
+    } }
+    w.write(&json!({"kind":"summary","cases":cases.len(),"evaluations":evals,"nontrivial":nontrivial,"cli_cases":cli}));
+    w.finish();
+}
+
+
+// ---------------------------------------------------------------------------------------------
+// C01 / C16 code -> spec: large seeded cases with an independent match map, for DeltaTrace.tla
+// ---------------------------------------------------------------------------------------------
+mod deltal {
+    use super::*;
+    use copia::async_sync::AsyncCopiaSync;
+    use copia::{CopiaSync, DeltaOp, Signature, Sync};
+    use std::collections::HashMap;
+    use std::io::Cursor;
+
+    const P: u64 = 0x9E37_79B9_7F4A_7C15 | 1;
+
+    /// every source position whose n-byte window equals a FULL basis block -> lowest such block index
+    pub fn match_map(basis: &[u8], source: &[u8], n: usize) -> Vec<(usize, usize)> {
+        let mut out = vec![];
+        if n == 0 || basis.len() < n || source.len() < n { return out; }
+        let h = |w: &[u8]| w.iter().fold(0u64, |a, &b| a.wrapping_mul(P).wrapping_add(u64::from(b) + 1));
+        let mut table: HashMap<u64, Vec<usize>> = HashMap::new();
+        for i in 0..basis.len() / n { table.entry(h(&basis[i * n..(i + 1) * n])).or_default().push(i); }
+        let mut pw = 1u64;
+        for _ in 0..n - 1 { pw = pw.wrapping_mul(P); }
+        let mut cur = h(&source[..n]);
+        let mut pos = 0usize;
+        loop {
+            if let Some(c) = table.get(&cur) {
+                if let Some(&i) = c.iter().find(|&&i| basis[i * n..(i + 1) * n] == source[pos..pos + n]) { out.push((pos, i)); }
+            }
+            if pos + n >= source.len() { break; }
+            cur = cur.wrapping_sub((u64::from(source[pos]) + 1).wrapping_mul(pw)).wrapping_mul(P).wrapping_add(u64::from(source[pos + n]) + 1);
+            pos += 1;
+        }
+        out
+    }
+
+    pub fn observe(rt: &tokio::runtime::Runtime, basis: &[u8], source: &[u8], n: usize, valid_r: bool) -> Value {
+        let res = catch_unwind(AssertUnwindSafe(|| -> Result<Value, String> {
+            let sync = if valid_r { CopiaSync::with_block_size(n) } else { CopiaSync::new() };
+            let asy = if valid_r { AsyncCopiaSync::with_block_size(n) } else { AsyncCopiaSync::new() };
+            let sig = if valid_r { sync.signature(Cursor::new(basis)).map_err(|e| e.to_string())? }
+                      else { Signature::generate(&mut Cursor::new(basis), n).map_err(|e| e.to_string())? };
+            let mut agree = true;
+            if valid_r {
+                let sig_a = rt.block_on(asy.signature(basis)).map_err(|e| e.to_string())?;
+                agree &= sig_a == sig;
+                // the sequential path on the same bytes (chunks of <= 64 KiB never take the rayon path): block-wise recomputation
+                let seq: Vec<copia::BlockSignature> = basis.chunks(n).enumerate().map(|(i, c)| copia::BlockSignature::compute(i as u32, c)).collect();
+                agree &= seq == sig.blocks;
+            }
+            let d = sync.delta(Cursor::new(source), &sig).map_err(|e| e.to_string())?;
+            let d_a = rt.block_on(asy.delta(source, &sig)).map_err(|e| e.to_string())?;
+            agree &= d == d_a;
+            let mut at = 0usize;
+            let mut lit_ok = true;
+            let mut ops = vec![];
+            for op in &d.ops {
+                match op {
+                    DeltaOp::Copy { offset, len } => { ops.push(json!(["C", offset, len])); at += *len as usize; }
+                    DeltaOp::Literal(x) => {
+                        lit_ok &= at + x.len() <= source.len() && source[at..at + x.len()] == x[..];
+                        ops.push(json!(["L", x.len()]));
+                        at += x.len();
+                    }
+                }
+            }
+            let fields_ok = d.source_size == source.len() as u64 && d.basis_size == basis.len() as u64
+                && d.checksum.as_bytes() == blake3::hash(source).as_bytes() && d.block_size as usize == n;
+            let mut out = Vec::new();
+            let p1 = sync.patch(Cursor::new(basis), &d, &mut out).is_ok() && out == source;
+            let mut out2 = Vec::new();
+            let p2 = rt.block_on(asy.patch(Cursor::new(basis.to_vec()), &d, &mut out2)).is_ok() && out2 == source;
+            Ok(json!({"completed":true,"ops":ops,"lit_ok":lit_ok,"fields_ok":fields_ok,"patched_ok":p1 && p2,"engines_agree":agree}))
+        }));
+        match res {
+            Ok(Ok(v)) => v,
+            Ok(Err(e)) => json!({"completed":false,"ops":[],"lit_ok":false,"fields_ok":false,"patched_ok":false,"engines_agree":false,"error":e}),
+            Err(_) => json!({"completed":false,"ops":[],"lit_ok":false,"fields_ok":false,"patched_ok":false,"engines_agree":false,"error":"panic"}),
+        }
+    }
+
+    pub fn distinct_blocks(rng: &mut StdRng, nblocks: usize, n: usize, class: usize) -> Vec<u8> {
+        let mut v = Vec::with_capacity(nblocks * n);
+        for b in 0..nblocks {
+            match class {
+                1 => { // high-sum blocks: 0xFF with a per-block marker
+                    let mut blk = vec![0xffu8; n];
+                    let tag = (b as u32).to_le_bytes();
+                    for (i, t) in tag.iter().enumerate() { if i < n { blk[i] = 0x80 | (t & 0x7f); } }
+                    if n > 8 { blk[n / 2] = 0xf0 | (rng.gen::<u8>() & 0xe); }
+                    v.extend_from_slice(&blk);
+                }
+                _ => { for _ in 0..n { v.push(rng.gen()); } }
+            }
+        }
+        v
+    }
+}
+
+/// args: out_prefix seed tier  -> trace shards + JSON summary on stdout
+fn cmd_delta_large(args: &[String]) {
+    let prefix = &args[0];
+    let seed: u64 = args[1].parse().unwrap();
+    let thorough = args[2] == "thorough";
+    let mut rng = StdRng::seed_from_u64(seed);
+    let rt = tokio::runtime::Builder::new_current_thread().build().unwrap();
+    // (label, basis, source, n, valid_r, identical, edit_k)
+    let mut jobs: Vec<(String, Vec<u8>, Vec<u8>, usize, bool, bool, i64)> = vec![];
+    let all_r: [usize; 8] = [512, 1024, 2048, 4096, 8192, 16384, 32768, 65536];
+    for &r in &all_r {
+        for class in 0..2 {
+            // identical files of assorted lengths
+            for &len in &[0usize, 1, r - 1, r, r + 1, 3 * r, 3 * r + 17] {
+                let nb = len.div_ceil(r).max(1);
+                let mut f = deltal::distinct_blocks(&mut rng, nb, r, class);
+                f.truncate(len);
+                jobs.push((format!("identical len={len}"), f.clone(), f, r, true, true, -1));
+            }
+            // k-byte insert / delete / replace at alignment classes in a file of distinct blocks
+            let nb = if r >= 16384 { 5 } else { 9 };
+            let base = deltal::distinct_blocks(&mut rng, nb, r, class);
+            let ks: Vec<usize> = if thorough { vec![1, 7, r - 1, r, r + 3] } else { vec![1, r - 1, r + 3] };
+            let offs: Vec<usize> = if thorough { vec![0, 1, r / 2, r - 1, r, 2 * r + 5, base.len() - 1] } else { vec![0, 1, r - 1, 2 * r + 5] };
+            for &k in &ks { for &off in &offs {
+                let mut ins = base.clone();
+                let noise: Vec<u8> = (0..k).map(|_| rng.gen()).collect();
+                ins.splice(off..off, noise.iter().cloned());
+                jobs.push((format!("insert k={k} at {off}"), base.clone(), ins, r, true, false, k as i64));
+                if off + k <= base.len() {
+                    let mut del = base.clone();
+                    del.drain(off..off + k);
+                    jobs.push((format!("delete k={k} at {off}"), base.clone(), del, r, true, false, k as i64));
+                    let mut rep = base.clone();
+                    for i in 0..k { rep[off + i] ^= 0x55; }
+                    jobs.push((format!("replace k={k} at {off}"), base.clone(), rep, r, true, false, k as i64));
+                }
+            } }
+        }
+        // > 5000 (and > 10000) consecutive slides before the first match
+        for &pre in &[5003usize, 10007] {
+            let base = deltal::distinct_blocks(&mut rng, 3, r, 0);
+            let mut src: Vec<u8> = (0..pre).map(|_| rng.gen()).collect();
+            src.extend_from_slice(&base);
+            jobs.push((format!("slides={pre}"), base, src, r, true, false, pre as i64));
+        }
+        // repeated blocks / constant files
+        for &byte in &[0u8, 0xff] {
+            jobs.push((format!("constant {byte:#x}"), vec![byte; 2 * r + 3], vec![byte; r + r / 8 + 1], r, true, false, -1));
+        }
+        let blk = deltal::distinct_blocks(&mut rng, 1, r, 0);
+        let mut rep = Vec::new(); for _ in 0..4 { rep.extend_from_slice(&blk); }
+        let mut src = rep.clone(); src.splice(5..5, [1u8, 2, 3]);
+        jobs.push(("repeated blocks".into(), rep, src, r, true, false, 3));
+        // weak-collision neighbours in bytes: block j+1 replaced by a block with the same Adler pair, also unaligned
+        {
+            let base = deltal::distinct_blocks(&mut rng, 4, r, 0);
+            let mut b2 = base.clone();
+            let at = 2 * r + r / 3;
+            for i in 0..3 { b2[at + i] = 2 + (b2[at + i] % 250); }
+            let basis = b2.clone();
+            let mut src = b2.clone();
+            src[at] += 1; src[at + 1] -= 2; src[at + 2] += 1;
+            jobs.push(("weak-colliding block after a match".into(), basis.clone(), src.clone(), r, true, false, 3));
+            let mut src2 = vec![9u8; 5]; src2.extend_from_slice(&src);
+            jobs.push(("weak-colliding block, unaligned".into(), basis, src2, r, true, false, 8));
+        }
+        // short all-zero tail in the basis, longer zero run in the source
+        {
+            let mut basis = deltal::distinct_blocks(&mut rng, 2, r, 0);
+            basis.extend_from_slice(&vec![0u8; r / 2]);
+            let mut src = basis.clone();
+            src.extend_from_slice(&vec![0u8; 2 * r]);
+            jobs.push(("zero tail extended".into(), basis, src, r, true, false, -1));
+        }
+    }
+    // library level: every positive block size
+    for &n in &[1usize, 2, 3, 7, 100, 511, 513, 4095, 65537] {
+        let nb = if n < 8 { 40 } else if n < 1000 { 12 } else { 4 };
+        let base: Vec<u8> = if n < 8 { (0..nb * n).map(|_| rng.gen_range(0..4u8)).collect() } else { deltal::distinct_blocks(&mut rng, nb, n, 0) };
+        let mut src = base.clone();
+        let off = base.len() / 3;
+        src.splice(off..off, [7u8, 7, 7, 7, 7]);
+        jobs.push((format!("odd block size n={n}"), base.clone(), src, n, false, false, if n < 8 { -1 } else { 5 }));
+        jobs.push((format!("odd block size n={n} identical"), base.clone(), base, n, false, n >= 8, -1));
+    }
+    // > 64 KiB (parallel signature path) at small block sizes, and 1 MiB
+    for &(len, r) in &[(200_000usize, 2048usize), (1 << 20, 4096), (70_000, 512)] {
+        if !thorough && len > 300_000 { continue; }
+        let base = deltal::distinct_blocks(&mut rng, len / r + 1, r, 0);
+        let mut src = base.clone();
+        let off = len / 2 + 13;
+        src.splice(off..off + 10, [1u8; 25]);
+        jobs.push((format!("large len={len}"), base, src, r, true, false, 25));
+    }
+    let mut w = NdjsonWriter::create(&format!("{prefix}0.ndjson"));
+    let mut files = vec![];
+    let (mut n_in, mut shard, mut total) = (0usize, 0usize, 0usize);
+    let mut labels = vec![]; let mut skipped = 0usize;
+    for (label, basis, source, n, valid, ident, k) in &jobs {
+        let mm = deltal::match_map(basis, source, *n);
+        if mm.len() > 3000 { skipped += 1; continue; }
+        let mut rec = deltal::observe(&rt, basis, source, *n, *valid);
+        let m = rec.as_object_mut().unwrap();
+        m.insert("R".into(), json!(n)); m.insert("blen".into(), json!(basis.len())); m.insert("slen".into(), json!(source.len()));
+        m.insert("matches".into(), json!(mm)); m.insert("identical".into(), json!(ident)); m.insert("edit_k".into(), json!(k));
+        m.insert("label".into(), json!(label));
+        w.write(&rec);
+        labels.push(label.clone());
+        n_in += 1; total += 1;
+        if n_in >= 400 { w.finish(); files.push((format!("{prefix}{shard}.ndjson"), n_in)); shard += 1; n_in = 0; w = NdjsonWriter::create(&format!("{prefix}{shard}.ndjson")); }
+    }
+    w.finish();
+    if n_in > 0 { files.push((format!("{prefix}{shard}.ndjson"), n_in)); }
+    println!("{}", json!({"files":files,"records":total,"skipped_dense_match_maps":skipped}));
+}
+
+
+// ---------------------------------------------------------------------------------------------
+// C05: patch under corruption (spec -> code on PatchCorrupt cases; code -> spec on byte-level corruptions)
+// ---------------------------------------------------------------------------------------------
+mod patchc {
+    use super::*;
+    use copia::async_sync::AsyncCopiaSync;
+    use copia::{CopiaError, CopiaSync, Delta, DeltaOp, StrongHash, Sync};
+    use std::io::Cursor;
+
+    pub fn class_of(r: &Result<(), CopiaError>) -> &'static str {
+        match r {
+            Ok(()) => "Ok",
+            Err(CopiaError::InvalidCopyBounds { .. }) => "InvalidCopyBounds",
+            Err(CopiaError::Io(_)) => "Io",
+            Err(CopiaError::ChecksumMismatch { .. }) => "ChecksumMismatch",
+            Err(CopiaError::CorruptedDelta) => "CorruptedDelta",
+            Err(_) => "OtherError",
+        }
+    }
+
+    pub struct Obs { pub sync: String, pub asy: String, pub sync_hash_ok: bool, pub asy_hash_ok: bool }
+
+    pub fn run_lib(rt: &tokio::runtime::Runtime, basis: &[u8], d: &Delta) -> Obs {
+        let sync = CopiaSync::new();
+        let asy = AsyncCopiaSync::new();
+        let mut out = Vec::new();
+        let rs = catch_unwind(AssertUnwindSafe(|| sync.patch(Cursor::new(basis), d, &mut out)));
+        let (sc, sh) = match &rs { Ok(r) => (class_of(r).to_string(), blake3::hash(&out).as_bytes() == d.checksum.as_bytes()), Err(_) => ("PANIC".into(), false) };
+        let mut out2 = Vec::new();
+        let ra = catch_unwind(AssertUnwindSafe(|| rt.block_on(asy.patch(Cursor::new(basis.to_vec()), d, &mut out2))));
+        let (ac, ah) = match &ra { Ok(r) => (class_of(r).to_string(), blake3::hash(&out2).as_bytes() == d.checksum.as_bytes()), Err(_) => ("PANIC".into(), false) };
+        Obs { sync: sc, asy: ac, sync_hash_ok: sh, asy_hash_ok: ah }
+    }
+
+    /// `copia patch basis delta -o out` -> (exit code or -signal, output hash matches checksum)
+    pub fn run_cli(copia: &str, dir: &std::path::Path, basis: &[u8], d: &Delta, raw_delta: Option<&[u8]>) -> (i32, bool, String) {
+        std::fs::write(dir.join("pb"), basis).unwrap();
+        match raw_delta { Some(b) => std::fs::write(dir.join("pd"), b).unwrap(), None => std::fs::write(dir.join("pd"), bincode::serialize(d).unwrap()).unwrap() }
+        let _ = std::fs::remove_file(dir.join("po"));
+        let o = std::process::Command::new("timeout").arg("20").arg(copia).args(["patch", dir.join("pb").to_str().unwrap(), dir.join("pd").to_str().unwrap(), "-o", dir.join("po").to_str().unwrap()])
+            .env("RUST_LOG", "off").output().unwrap();
+        use std::os::unix::process::ExitStatusExt;
+        let code = o.status.code().unwrap_or_else(|| -o.status.signal().unwrap_or(99));
+        let outb = std::fs::read(dir.join("po")).unwrap_or_default();
+        let stderr = String::from_utf8_lossy(&o.stderr).chars().take(200).collect();
+        (code, blake3::hash(&outb).as_bytes() == d.checksum.as_bytes(), stderr)
+    }
+}
+
+/// args: cases.ndjson out.ndjson seed tier copia_bin workdir
+fn cmd_patch_cases(args: &[String]) {
+    use copia::{Delta, DeltaOp, StrongHash};
+    let cases = read_ndjson(&args[0]);
+    let seed: u64 = args[2].parse().unwrap();
+    let thorough = args[3] == "thorough";
+    let copia = args[4].clone();
+    let workdir = args[5].clone();
+    let rs: Vec<usize> = if thorough { vec![512, 2048, 8192, 65536] } else { vec![512, 4096] };
+    let nthreads = 16usize;
+    let results: Vec<Vec<Value>> = std::thread::scope(|sc| {
+        let hs: Vec<_> = (0..nthreads).map(|t| {
+            let cases = &cases; let rs = &rs; let copia = &copia; let workdir = &workdir;
+            sc.spawn(move || {
+                let rt = tokio::runtime::Builder::new_current_thread().build().unwrap();
+                let dir = std::path::Path::new(workdir).join(format!("p{t}"));
+                std::fs::create_dir_all(&dir).unwrap();
+                let mut out = vec![];
+                let (mut evals, mut nontrivial, mut cli) = (0u64, 0u64, 0u64);
+                for (ci, c) in cases.iter().enumerate() {
+                    if ci % nthreads != t { continue; }
+                    let b = c["B"].as_u64().unwrap() as usize;
+                    let want_s = c["sync"].as_str().unwrap();
+                    let want_a = c["async"].as_str().unwrap();
+                    if want_a != "Ok" { nontrivial += 1; }
+                    for &r in rs {
+                        let clen = r / b;
+                        let basis = deltae::expand(&c["basis"], clen, seed);
+                        let ops: Vec<DeltaOp> = deltae::expected_ops(c, clen, seed);
+                        let bs = c["blocksize"].as_i64().unwrap();
+                        let d = Delta {
+                            block_size: if bs >= 0 { bs as u32 } else { r as u32 },
+                            source_size: c["ssize"].as_u64().unwrap() * clen as u64,
+                            basis_size: c["bsize"].as_u64().unwrap() * clen as u64,
+                            ops,
+                            checksum: StrongHash::compute(&deltae::expand(&c["csum"], clen, seed)),
+                        };
+                        let o = patchc::run_lib(&rt, &basis, &d);
+                        evals += 1;
+                        let inp = json!({"basis":c["basis"],"ops":c["ops"],"ssize":c["ssize"],"bsize":c["bsize"],"csum":c["csum"],"corr":c["corr"],"B":b,"R":r,"blocksize":bs});
+                        for (eng, got, hash_ok, want) in [("sync", &o.sync, o.sync_hash_ok, want_s), ("async", &o.asy, o.asy_hash_ok, want_a)] {
+                            if got == "PANIC" { out.push(json!({"kind":"violation","case":ci,"what":format!("{eng} patch panicked"),"input":inp})); }
+                            else if got == "Ok" && !hash_ok { out.push(json!({"kind":"violation","case":ci,"what":format!("{eng} patch reported success but the bytes written do not hash to delta.checksum"),"input":inp})); }
+                            else if got != want { out.push(json!({"kind":"nonconf","case":ci,"what":format!("{eng} patch outcome {got}, spec predicts {want}"),"corr":c["corr"]})); }
+                        }
+                        let pick = (ci / nthreads) % (if thorough { 5 } else { 23 }) == 0 || bs >= 0;
+                        if pick && r == rs[0] {
+                            cli += 1;
+                            let (code, hash_ok, stderr) = patchc::run_cli(copia, &dir, &basis, &d, None);
+                            let want_ok = want_a == "Ok" && (bs < 0 || (bs as usize).is_power_of_two() && (512..=65536).contains(&(bs as usize)));
+                            if code < 0 || code > 1 { out.push(json!({"kind":"violation","case":ci,"what":format!("copia patch crashed or hung (status {code}): {stderr}"),"input":inp})); }
+                            else if code == 0 && !hash_ok { out.push(json!({"kind":"violation","case":ci,"what":"copia patch exited 0 but the output file does not hash to delta.checksum","input":inp})); }
+                            else if (code == 0) != want_ok { out.push(json!({"kind":"nonconf","case":ci,"what":format!("copia patch exit {code}, spec predicts {}", if want_ok {"success"} else {"error"}),"corr":c["corr"]})); }
+                        }
+                    }
+                }
+                let _ = std::fs::remove_dir_all(&dir);
+                out.push(json!({"kind":"summary","evaluations":evals,"nontrivial":nontrivial,"cli":cli}));
+                out
+            })
+        }).collect();
+        hs.into_iter().map(|h| h.join().unwrap()).collect()
+    });
+    let mut w = NdjsonWriter::create(&args[1]);
+    let (mut evals, mut nontrivial, mut cli) = (0u64, 0u64, 0u64);
+    for r in results { for v in r {
+        if v["kind"] == "summary" { evals += v["evaluations"].as_u64().unwrap(); nontrivial += v["nontrivial"].as_u64().unwrap(); cli += v["cli"].as_u64().unwrap(); }
+        else { w.write(&v); }
+    } }
+    w.write(&json!({"kind":"summary","cases":cases.len(),"evaluations":evals,"nontrivial":nontrivial,"cli_cases":cli}));
+    w.finish();
+}
+
+
+/// args: n out.ndjson seed copia_bin workdir   (code -> spec for C05)
+fn cmd_patch_random(args: &[String]) {
+    use copia::{CopiaSync, Delta, DeltaOp, StrongHash, Sync};
+    use std::io::Cursor;
+    let n: usize = args[0].parse().unwrap();
+    let mut w = NdjsonWriter::create(&args[1]);
+    let seed: u64 = args[2].parse().unwrap();
+    let copia = &args[3];
+    let dir = std::path::PathBuf::from(&args[4]);
+    std::fs::create_dir_all(&dir).unwrap();
+    let mut rng = StdRng::seed_from_u64(seed);
+    let rt = tokio::runtime::Builder::new_current_thread().build().unwrap();
+    for k in 0..n {
+        let r = [512usize, 2048, 8192][rng.gen_range(0..3)];
+        let nb = rng.gen_range(1..8);
+        let mut basis: Vec<u8> = (0..nb * r + rng.gen_range(0..r)).map(|_| rng.gen()).collect();
+        let mut source = basis.clone();
+        for _ in 0..rng.gen_range(0..3) {
+            let at = rng.gen_range(0..source.len());
+            let ins: Vec<u8> = (0..rng.gen_range(1..40)).map(|_| rng.gen()).collect();
+            source.splice(at..at, ins);
+        }
+        let sync = CopiaSync::with_block_size(r);
+        let sig = sync.signature(Cursor::new(&basis)).unwrap();
+        let mut d: Delta = sync.delta(Cursor::new(&source), &sig).unwrap();
+        let mut huge = false;
+        let mut corrs: Vec<String> = vec![];
+        for _ in 0..rng.gen_range(1..=3) {
+            let which = rng.gen_range(0..16);
+            corrs.push(format!("c{which}"));
+            match which {
+                0 => { basis = (0..basis.len()).map(|_| rng.gen()).collect(); }
+                1 => { let cut = rng.gen_range(0..=basis.len()); basis.truncate(cut); }
+                2 => { let extra = rng.gen_range(1..2000); basis.extend((0..extra).map(|_| rng.gen::<u8>())); }
+                3 => { if !basis.is_empty() { let i = rng.gen_range(0..basis.len()); basis[i] ^= 1 << rng.gen_range(0..8); } }
+                4 | 5 => {
+                    let copies: Vec<usize> = d.ops.iter().enumerate().filter(|(_, o)| o.is_copy()).map(|(i, _)| i).collect();
+                    if let Some(&i) = copies.get(rng.gen_range(0..copies.len().max(1))) {
+                        if let DeltaOp::Copy { offset, len } = &mut d.ops[i] {
+                            match rng.gen_range(0..6) {
+                                0 => *offset = offset.wrapping_add(1),
+                                1 => *offset = offset.saturating_sub(rng.gen_range(1..600)),
+                                2 => *len = len.saturating_add(rng.gen_range(1..600)),
+                                3 => *len = len.saturating_sub(rng.gen_range(1..600)),
+                                4 => { *offset = rng.gen_range(0..(basis.len() as u64 + 4000)); }
+                                _ => { if which == 5 && k % 40 == 0 { *offset = u64::MAX - rng.gen_range(0..4); *len = u32::MAX; huge = true; } else { *len = rng.gen_range(0..70000); } }
+                            }
+                        }
+                    }
+                }
+                6 => { if !d.ops.is_empty() { let i = rng.gen_range(0..d.ops.len()); d.ops.remove(i); } }
+                7 => { if !d.ops.is_empty() { let i = rng.gen_range(0..d.ops.len()); let o = d.ops[i].clone(); d.ops.insert(i, o); } }
+                8 => { if d.ops.len() >= 2 { let i = rng.gen_range(0..d.ops.len() - 1); d.ops.swap(i, i + 1); } }
+                9 => {
+                    let lits: Vec<usize> = d.ops.iter().enumerate().filter(|(_, o)| o.is_literal()).map(|(i, _)| i).collect();
+                    if let Some(&i) = lits.get(rng.gen_range(0..lits.len().max(1))) {
+                        if let DeltaOp::Literal(x) = &mut d.ops[i] { if !x.is_empty() { let j = rng.gen_range(0..x.len()); x[j] ^= 1 << rng.gen_range(0..8); } }
+                    }
+                }
+                10 => { d.source_size = if rng.gen() { d.source_size + rng.gen_range(1..5) } else { d.source_size.saturating_sub(rng.gen_range(1..5)) }; }
+                11 => { d.basis_size = match rng.gen_range(0..4) { 0 => 0, 1 => d.basis_size.saturating_sub(rng.gen_range(1..3000)), 2 => d.basis_size + rng.gen_range(1..3000), _ => { if k % 40 == 0 { huge = true; u64::MAX } else { d.basis_size + 100_000 } } }; }
+                12 => { d.block_size = [0u32, 1, 1000, 4096, 1 << 20, u32::MAX][rng.gen_range(0..6)]; }
+                13 => { let mut h = *d.checksum.as_bytes(); h[rng.gen_range(0..32)] ^= 1 << rng.gen_range(0..8); d.checksum = StrongHash::from_bytes(h); }
+                14 => { d.ops.reverse(); }
+                _ => { d.ops.push(DeltaOp::Copy { offset: 0, len: 0 }); }
+            }
+        }
+        // independent applier: the bytes a correct patch would produce, if it can
+        let mut indep: Option<Vec<u8>> = Some(vec![]);
+        for op in &d.ops {
+            if let Some(out) = indep.as_mut() {
+                match op {
+                    DeltaOp::Copy { offset, len } => {
+                        let end = offset.checked_add(u64::from(*len));
+                        match end { Some(e) if e <= basis.len() as u64 => out.extend_from_slice(&basis[*offset as usize..e as usize]), _ => { indep = None; } }
+                    }
+                    DeltaOp::Literal(x) => out.extend_from_slice(x),
+                }
+            }
+        }
+        let indep_ok = indep.as_ref().map_or(false, |o| blake3::hash(o).as_bytes() == d.checksum.as_bytes());
+        let o = patchc::run_lib(&rt, &basis, &d);
+        let bs = d.block_size as usize;
+        let bs_valid = bs.is_power_of_two() && (512..=65536).contains(&bs);
+        let (mut cli, mut cli_hash_ok) = (-99i32, false);
+        if k % 6 == 0 && !huge {
+            let (c, h, _e) = patchc::run_cli(copia, &dir, &basis, &d, None);
+            cli = c; cli_hash_ok = h;
+        }
+        let cap = |x: u64| -> u64 { x.min(1 << 30) };
+        let ops: Vec<Value> = d.ops.iter().map(|op| match op { DeltaOp::Copy { offset, len } => json!(["C", cap(*offset), cap(u64::from(*len))]), DeltaOp::Literal(x) => json!(["L", x.len()]) }).collect();
+        w.write(&json!({"ops":ops,"bsize":cap(d.basis_size),"ssize":cap(d.source_size),"blen":basis.len(),"indep_ok":indep_ok,"huge":huge,
+            "sync":o.sync,"async":o.asy,"sync_hash_ok":o.sync_hash_ok,"async_hash_ok":o.asy_hash_ok,"cli":cli,"cli_hash_ok":cli_hash_ok,"bs_valid":bs_valid,
+            "R":r,"corruptions":corrs}));
+    }
+    w.finish();
+    let _ = std::fs::remove_dir_all(&dir);
+}
+
 fn main() {
+    std::panic::set_hook(Box::new(|_| {}));
     let args: Vec<String> = std::env::args().skip(1).collect();
     let rest = &args[1..];
     match args[0].as_str() {
         "rolling" => cmd_rolling(rest),
+        "delta-cases" => cmd_delta_cases(rest),
+        "delta-large" => cmd_delta_large(rest),
+        "patch-cases" => cmd_patch_cases(rest),
+        "patch-random" => cmd_patch_random(rest),
         x => { eprintln!("unknown subcommand {x}"); std::process::exit(2) }
     }
 }
